@@ -724,6 +724,35 @@ fn check_push(base: &[f64], pushes: &[F]) -> Verdict {
     let mut model = base.to_vec();
     let mut rejected = 0;
     let mut accepted = 0;
+    // every observer is consulted before the first push and after every push, on the object itself and on a clone: the
+    // domain must answer for its current contents whatever was asked of it earlier
+    fn observe(d: &DiscreteDomain, model: &[f64], when: &str) -> Result<(), Failure> {
+        let copy = d.clone();
+        for dom in [d, &copy] {
+            match dom.bounds() {
+                None => crate::ensure_r!(model.is_empty(), "C17/push/bounds_none", "{when}: bounds() is None for {:?}", model),
+                Some(b) => {
+                    crate::ensure_r!(!model.is_empty() && b.min == model[0] && b.max == model[model.len() - 1], "C17/push/bounds_stale", "{when}: bounds() = [{:e},{:e}] but the domain holds {:?}", b.min, b.max, model);
+                }
+            }
+            if model.len() >= 2 {
+                let n = model.len();
+                for (lo, hi) in [(model[n - 2], model[n - 1]), (model[0], model[1])] {
+                    if hi > lo {
+                        let q = lo + 0.5 * (hi - lo);
+                        if q > lo && q < hi {
+                            let got = dom.index_of(q);
+                            crate::ensure_r!(got.map(|i| model[i] <= q && (i + 1 >= n || model[i + 1] >= q)).unwrap_or(false), "C17/push/index_of_stale", "{when}: index_of({q:e}) = {:?} in {:?}", got, model);
+                        }
+                    }
+                }
+            }
+        }
+        Ok(())
+    }
+    if let Err(f) = observe(&d, &model, "before any push") {
+        return Verdict::Fail(f);
+    }
     for p in pushes {
         let x = p.0;
         let ok = x.is_finite() && model.last().map(|l| x >= *l).unwrap_or(true);
@@ -737,6 +766,9 @@ fn check_push(base: &[f64], pushes: &[F]) -> Verdict {
         }
         ensure!(d.values() == &model[..], "C17/push/contents", "after push({x:e}) domain is {:?}, model {:?}", d.values(), model);
         ensure!(d.len() == model.len(), "C17/push/len", "len mismatch");
+        if let Err(f) = observe(&d, &model, &format!("after push({x:e})")) {
+            return Verdict::Fail(f);
+        }
     }
     cx.label_if(rejected > 0, "push_rejected");
     if rejected > 0 && accepted > 0 {
